@@ -139,11 +139,12 @@ def obligations(tier, seed):
         return False
     out = []
     for i, (cid, pl) in enumerate(ch):
-        out += RF.ck(cid, RF.u32(w) if i == cv[100] else (RF.u32(w2) if i == cv[99] else pl))
+        out += RF.ck(cid, RF.u32(w) if i == cv[100] else (RF.u32(w2) if i == cv[97] else pl))
     m2 = load_bytes(out).module
-    return m2.user_defined_controllers == 96 and m2.get_raw("user_defined_96") == w and m2.get_raw("user_defined_95") == w2 and all(c.attached(m2) for c in m2.user_defined)
+    # (#96 is mapped onto MultiSynth.transpose and #93 onto Amplifier.balance: ranged targets, so any stored word is loadable)
+    return m2.user_defined_controllers == 96 and m2.get_raw("user_defined_96") == w and m2.get_raw("user_defined_93") == w2 and all(c.attached(m2) for c in m2.user_defined)
 """
-    obs.append(Ob("stored.last96", build(p_ + [R("w", 0, 2**31 - 1), R("w2", 0, 2**31 - 1)], body, setup=SETUP), "with all 96 user-defined controllers in use the 100th and 101st stored values are decoded into user-defined #95 and #96",
+    obs.append(Ob("stored.last96", build(p_ + [R("w", 0, 2**31 - 1), R("w2", 0, 2**31 - 1)], body, setup=SETUP), "with all 96 user-defined controllers in use the 98th and 101st stored values are decoded into user-defined #93 and #96",
                   group="stored", shape="synth(MetaModule) n=96, last two stored words replaced in the written stream", symbolic="two stored words", timeout=900))
     # no label chunks at all (the options chunk is then the LAST module-specific chunk of the MetaModule)
     for ctx in ("synth", "project"):
